@@ -96,9 +96,9 @@ func drawGaps(t *Tape) []Dur {
 	case 0:
 		return nil
 	case 1:
-		return []Dur{t.Dur()}
+		return []Dur{t.SmallDur()}
 	default:
-		return []Dur{t.Dur(), t.Dur(), t.Dur()}
+		return []Dur{t.SmallDur(), t.SmallDur(), t.SmallDur()}
 	}
 }
 
@@ -153,9 +153,9 @@ func drawParks(t *Tape) []Dur {
 	case 0:
 		return nil
 	case 1:
-		return []Dur{0, 0, t.Dur()}
+		return []Dur{0, 0, t.SmallDur()}
 	default:
-		return []Dur{t.Dur(), t.Dur()}
+		return []Dur{t.SmallDur(), t.SmallDur()}
 	}
 }
 
@@ -176,10 +176,10 @@ func maxInt(a, b int) int {
 // defaults fills the bounds every connection script needs.
 func (c *ConnScript) defaults() {
 	if c.AwaitTO == 0 {
-		c.AwaitTO = 2 * time.Minute
+		c.AwaitTO = 5 * time.Minute
 	}
 	if c.IdleEnd == 0 {
-		c.IdleEnd = 30 * time.Second
+		c.IdleEnd = 5 * time.Minute
 	}
 	if c.Cut == 0 && c.CutKind == cutNone {
 		c.Cut = -1
